@@ -1,7 +1,7 @@
 """C08 — replication fetching is bounded, duplicate-free, in-range (safety clauses)."""
 import tables as T
 from cfg import cfg_of
-from flow import Taint, Tracker, callee_matches, field_reads, op_local, prep, backward
+from flow import Taint, Tracker, callee_matches, field_reads, op_local, prep, backward, locals_of_type
 from rules import CallGuard, CallSink, CmpGuard, RetSink, AggSink, BlockSink, FieldOptGuard, compare_sites
 from rules import PL
 from props.C04 import call_results
@@ -39,6 +39,7 @@ def on_field(callees, field, argi=0):
 
 
 def run(R):
+    liveness_rules(R)
     F = R.F
     R.who_may_write("C08.own.ongoing", RF, "on_going_fetches", WRITERS, floor=7, descr="on_going_fetches is touched only by the fetcher's own scheduling/completion functions")
     R.who_may_write("C08.own.queue", RF, "to_be_fetched", WRITERS, floor=8, descr="to_be_fetched is touched only by the fetcher's own functions")
@@ -73,7 +74,9 @@ def run(R):
                 vi = [blk for blk in b.blocks if blk["term"]["k"] == "call" and not blk["cleanup"] and (blk["term"]["ncallee"] or "").endswith("VacantEntry::insert")]
                 oi = [blk for blk in b.blocks if blk["term"]["k"] == "call" and not blk["cleanup"] and ((blk["term"]["ncallee"] or "").endswith("OccupiedEntry::insert")
                       or (blk["term"]["ncallee"] or "").endswith("Entry::insert_entry") or (blk["term"]["ncallee"] or "").endswith("Entry::and_modify")
-                      or (blk["term"]["ncallee"] or "").endswith("Entry::or_insert")) and op_local(blk["term"]["args"][0]) in e]
+                      or (blk["term"]["ncallee"] or "").endswith("Entry::or_insert") or (blk["term"]["ncallee"] or "").endswith("OccupiedEntry::get_mut")
+                      or (blk["term"]["ncallee"] or "").endswith("OccupiedEntry::into_mut") or (blk["term"]["ncallee"] or "").endswith("Entry::or_insert_with")
+                      or (blk["term"]["ncallee"] or "").endswith("Entry::or_default")) and op_local(blk["term"]["args"][0]) in e]
                 n_ins += len([x for x in vi if op_local(x["term"]["args"][0]) in e])
                 ok = not oi
                 if oi:
@@ -253,3 +256,95 @@ def run(R):
     if hlc is not None:
         R.must_call("C08.wiring.full", hlc.path, [RF + "::set_farthest_on_full"], "MaxRecords refusal reaches set_farthest_on_full")
         R.must_call("C08.wiring.notify", hlc.path, [RF + "::notify_about_new_put"], "every put notifies the fetcher")
+
+
+RFP = "ant_networking::replication_fetcher::ReplicationFetcher::"
+
+
+def liveness_rules(R):
+    """Clauses about fetches *leaving* the in-flight set and holders being reported:
+    (a) an in-flight entry's deadline is fixed when the entry is created — nothing hands out `&mut` access to stored values of
+        on_going_fetches (get_mut / iter_mut / values_mut / OccupiedEntry::get_mut), so a re-advertisement cannot keep a dead
+        holder's fetch alive;
+    (b) every holder of a timed-out fetch is reported and has its queue dropped: between the collection of the failed holders and
+        their use nothing removes holders from the set;
+    (c) set_replication_distance_range stores the range it is given;
+    (d) add_keys always drops the queued entries of records that are now held (remove_stored_keys on every path to a return);
+    (e) handle_local_cmd: the keys returned by notify_about_new_put are dispatched even when the store refused the record."""
+    from flow import backward_calls
+    from rules import _chain_calls
+    F = R.F
+    # (a)
+    n, bad = 0, []
+    for b in F.bodies.values():
+        if b.crate != "ant_networking" or "::tests::" in b.path:
+            continue
+        for c in b.calls:
+            nc = c["ncallee"] or ""
+            at = c.get("arg_tys") or []
+            if at and "HashMap<(libp2p_kad::record::Key, ant_protocol::storage::header::RecordType), (libp2p_identity::peer_id::PeerId" in at[0]:
+                n += 1
+                if nc.endswith(("::get_mut", "::iter_mut", "::values_mut", "::get_many_mut", "::drain", "::extract_if")):
+                    bad.append((b, c))
+    for b, c in bad:
+        R.viol("C08.deadline.fixed", "deadline-writable:%s" % R.root_path(b).split("::")[-1], "%s obtains mutable access to stored in-flight entries (%s): a fetch's deadline can be pushed back" % (R.root_path(b), c["ncallee"].split("::")[-1]), b, c["line"])
+    if n < 6:
+        R.viol("C08.deadline.fixed", "anchor-missing:on_going_fetches", "fewer than 6 uses of the in-flight map found (%d)" % n)
+    R.inst("C08.deadline.fixed", "K2 mutator whitelist", "no &mut access to stored in-flight entries: a deadline is fixed at insertion", n, not bad and n >= 6)
+    # (b)
+    pr = R.body("C08.expiry.all", RFP + "prune_expired_keys_and_slow_nodes")
+    if pr is not None:
+        prep(pr)
+        fh = set(locals_of_type(pr, "alloc::collections::btree::set::BTreeSet<libp2p_identity::peer_id::PeerId>", exact=True))
+        refs = {l for l, roots in Taint(pr).ref_of.items() if roots & fh}
+        shr = [blk for blk in pr.blocks if blk["term"]["k"] == "call" and not blk["cleanup"] and blk["term"]["args"] and op_local(blk["term"]["args"][0]) in refs | fh
+               and (blk["term"]["ncallee"] or "").endswith(("::retain", "::remove", "::clear", "::take", "::pop_first", "::pop_last", "::split_off", "::drain", "::extract_if"))]
+        ok = bool(fh) and not shr
+        for blk in shr[:1]:
+            R.viol("C08.expiry.all", "holder-exempted", "prune_expired_keys_and_slow_nodes removes holders from the failed set before reporting them (%s)" % blk["term"]["ncallee"].split("::")[-1], pr, blk["term"]["l"])
+        if not fh:
+            R.viol("C08.expiry.all", "anchor-missing:failed_holders", "no BTreeSet<PeerId> of failed holders in prune_expired_keys_and_slow_nodes", pr, pr.lines[0])
+        R.inst("C08.expiry.all", "K2 mutator whitelist", "every holder of a timed-out fetch stays in the reported set", len(fh), ok)
+    # (c)
+    sr = R.body("C08.range.set", RFP + "set_replication_distance_range")
+    if sr is not None:
+        prep(sr)
+        calls = [c["ncallee"] for c in sr.calls if not c.get("mac")]
+        ws = [st for blk in sr.blocks for st in blk["stmts"] if len(st["d"]) > 1 and st["d"][-1] == ".distance_range"]
+        param = Taint(sr).closure(PL(sr, 1))
+        somes = {st["d"][0]: st["rv"] for blk in sr.blocks for st in blk["stmts"] if st["rv"]["k"] == "agg" and st["rv"].get("variant") == "Some" and len(st["d"]) == 1}
+        def _is_some_of_param(st):
+            rv = st["rv"]
+            if rv["k"] == "use" and rv["a"][0] in ("cp", "mv") and len(rv["a"][1]) == 1 and rv["a"][1][0] in somes:
+                rv = somes[rv["a"][1][0]]
+            return rv["k"] == "agg" and rv.get("variant") == "Some" and op_local(rv["ops"][0]) in param
+        okc = bool(ws) and not calls and all(_is_some_of_param(st) for st in ws)
+        if not okc:
+            R.viol("C08.range.set", "range-not-stored", "set_replication_distance_range does not store exactly the range it is given (%s)" % (calls[:2] or "assignment changed"), sr, sr.lines[0])
+        R.inst("C08.range.set", "K6 flows-to", "distance_range = Some(the new range)", len(ws), okc)
+    # (d)
+    ak = R.body("C08.admit.prune", RFP + "add_keys")
+    if ak is not None:
+        R.must_pass("C08.admit.prune", ak, [("remove_stored_keys(locally_stored_keys)", CallSink(RFP + "remove_stored_keys"))],
+                    descr="add_keys drops queued entries of records now held, on every path")
+    # (e)
+    hlc = R.body("C08.wiring.dispatch", "ant_networking::cmd::<impl ant_networking::driver::SwarmDriver>::handle_local_cmd")
+    if hlc is not None:
+        prep(hlc)
+        g = cfg_of(hlc)
+        notif = [blk for blk in hlc.blocks if blk["term"]["k"] == "call" and not blk["cleanup"] and callee_matches(blk["term"], [RFP + "notify_about_new_put"])]
+        send = set(CallSink("ant_networking::driver::SwarmDriver::send_event", "*SwarmDriver::send_event").blocks(hlc))
+        oke = bool(notif)
+        for blk in notif:
+            ta = Taint(hlc, through="all")
+            keys = ta.closure({blk["term"]["d"][0]})
+            empties = CallGuard(["alloc::vec::Vec::is_empty"], ("true",), "nothing to fetch", arg_pred=lambda b_, bk, t, ks=keys: op_local(t["args"][0]) in ks)
+            n_, acc_, _ = empties.edges(hlc)
+            rets = {b2["id"] for b2 in hlc.blocks if b2["term"]["k"] == "return" and not b2["cleanup"]}
+            # from the notification, a return is reachable only through "nothing to fetch" or through the dispatch
+            nxt = tuple(d for d, _ in g.succ[blk["id"]])
+            if rets & g.reach(nxt, avoid=send, cut=acc_):
+                oke = False
+                R.viol("C08.wiring.dispatch", "keys-not-dispatched", "handle_local_cmd can return after notify_about_new_put scheduled fetches without dispatching them (KeysToFetchForReplication): "
+                       "the entries sit in the in-flight set until they time out and their holders are blamed", hlc, blk["term"]["l"])
+        R.inst("C08.wiring.dispatch", "K5 must-follow", "fetches scheduled by notify_about_new_put are always dispatched", len(notif), oke)
